@@ -9,16 +9,17 @@ from ..controls import load_controls
 
 EXPLANATION = ('(1) R-NULL check-then-use on every function of property.cpp (a pointer the function itself null-tests, '
                're-assigned from a list tail / NULL and dereferenced without a test). (2) The four hash tables Map<T>, Set<T>, '
-               'TagMap, StyleMap: control skeletons of get_slot/set|add/del/resize/next/has/copy_from are α-normalised with the '
-               'table-specific empty-slot predicate abstracted and must be identical across the siblings and equal to the frozen '
-               'reference skeleton (probe wraps at items+capacity, load-factor test precedes get_slot, count++ only on an empty '
-               'slot, del empties + count-- + re-inserts the following cluster until the first empty slot, resize re-inserts every '
-               'occupied item then clears, next stops at items+capacity). Payload obligations per table: del/cluster-move '
+               'TagMap, StyleMap: every method (get_slot/set|add/del/resize/next/has/copy_from) meets its event obligations on the CFG '
+               'with affine loop summaries (sa/hashtable.py; no stored text is compared): the probe starts at items + hash % capacity and every '
+               'cursor step is followed by the wrap test, the load-factor test precedes get_slot and holds before the last free slot of every '
+               'reachable capacity, count++ only on an empty '
+               'slot, del empties + count-- once + re-inserts the following cluster until the first empty slot, resize re-inserts every '
+               'occupied item then takes over all three fields after clear(), next resumes one past the item and stops at items+capacity). Payload obligations per table: del/cluster-move '
                'empties the old slot and writes every field of the item struct in the new slot; set/add writes every field. '
                '(3) Array<T>: grow-before-shift in insert, exactly one count decrement in remove/remove_unordered, copy_from '
                'allocates count items. (4) property-list copies append at the tail and deep-copy, remove_property leaves the function right after the first removal unless all occurrences were requested, and set_gds_property / get_or_add_property either update an existing entry or link a new one, never both (CFG reachability). Decides these structural '
                'necessary conditions; does not decide equivalence with an abstract map over operation histories, nor sort.')
-ASSUMPTIONS = ['the frozen reference skeletons in this module were confirmed by reading the pinned tree',
+ASSUMPTIONS = ['the obligations in sa/hashtable.py state what linear probing with in-place cluster repair requires; they were checked against the pinned tree by reading',
                'hash() is total and deterministic (not analysed)']
 XREF_FILES = ['src/property.cpp', 'src/style.cpp']
 
@@ -79,84 +80,6 @@ def occupied_test(n, tname, spec):
     return None
 
 
-def skeleton(fn, tname, spec):
-    """Canonical control skeleton of a table method: slot-pointer manipulation, count updates,
-    calls to sibling methods, tests of the empty-slot predicate; payload stores dropped."""
-    ren = clone.Renamer(fn)
-    item_re = re.compile(spec['item'])
-
-    def is_payload_store(s):
-        # assignments to a field of a slot / freeing a slot field / temporaries copied from slot fields
-        if is_assign(s) and s.op == '=':
-            l = s.child('lhs')
-            if l.k == 'MemberExpr' and l.arrow and is_slot_ptr(l.child('base'), spec):
-                return True
-        if s.k == 'CallExpr' and s.callee == 'gdstk::free_allocation':
-            a = s.args[0]
-            a = flow._strip_casts(a)
-            if a.k == 'MemberExpr' and a.arrow and is_slot_ptr(a.child('base'), spec):
-                return True
-        if s.k == 'DeclStmt':
-            vs = [c for c in s.c if c is not None]
-            if vs and all(not is_slot_ptr(v, spec) and v.child('init') is not None and
-                          any(m.k == 'MemberExpr' and m.arrow and is_slot_ptr(m.child('base'), spec) for m in v.child('init').walk()) for v in vs):
-                return True
-        if s.cast == 'ToVoid':
-            return True  # assert() under NDEBUG
-        return False
-
-    def drop(s):
-        if s.k == 'IfStmt':
-            # an if whose branches only contain payload stores and which does not test the predicate
-            return False
-        return is_payload_store(s)
-
-    def hook(n):
-        ot = occupied_test(n, tname, spec)
-        if ot is not None:
-            return ('OCC(%s)' if ot[1] else 'EMPTY(%s)') % ot[0].text(ren)
-        if n.k in ('CXXMemberCallExpr', 'CallExpr') and n.callee:
-            short = n.callee.split('::')[-1]
-            if short in ('get_slot',):
-                return 'get_slot(_)'
-            if short in ('set', 'add') and n.k == 'CXXMemberCallExpr':
-                o = n.child('obj')
-                return '%s.insert(_)' % ('this' if o.k == 'CXXThisExpr' else o.text(ren))
-            if short in ('hash',):
-                return 'hash(_)'
-            if short in ('allocate_clear',):
-                return 'allocate_clear(%s)' % n.args[0].text(ren, hook)
-            if short in ('strcmp',):
-                return 'MISMATCH'
-        if n.k == 'BinaryOperator' and n.op == '!=' and n.parent is not None and n.parent.k == 'BinaryOperator' and n.parent.op == '&&':
-            # key mismatch test in the probe loop: slot field compared with the parameter
-            l = n.child('lhs')
-            if l.k == 'MemberExpr' and l.arrow and is_slot_ptr(l.child('base'), spec):
-                return 'MISMATCH'
-        if n.k == 'BinaryOperator' and n.op == '!=' and n.child('lhs').k == 'CallExpr' and n.child('lhs').callee == 'strcmp':
-            return 'MISMATCH'
-        if n.k == 'UnaryExprOrTypeTraitExpr':
-            return 'sizeof(ITEM)'
-        if n.k in ('CStyleCastExpr',) and item_re.search(n.t or ''):
-            return '(ITEM*)' + n.child('sub').text(ren, hook)
-        if n.k == 'VarDecl':
-            t = n.t or ''
-            t2 = 'ITEM*' if (item_re.search(t) and '*' in t) else ('TABLE' if re.match(r'^(Map|Set|TagMap|StyleMap)\b', t.replace('gdstk::', '')) else t)
-            i = n.child('init')
-            return '%s %s%s' % (t2, ren(n), (' = ' + i.text(ren, hook)) if i is not None and i.k != 'CXXConstructExpr' else '')
-        if n.k == 'ReturnStmt':
-            v = n.child('value')
-            if v is not None and any(m.k == 'MemberExpr' and m.arrow and is_slot_ptr(m.child('base'), spec) and m.n not in ('valid',) and occupied_test(v, tname, spec) is None
-                                     for m in v.walk()) and occupied_test(v, tname, spec) is None:
-                return 'return PAYLOAD'
-            if v is not None and v.k in ('CXXScalarValueInitExpr', 'InitListExpr', 'CXXConstructExpr', 'DeclRefExpr') and fnret_payload[0]:
-                return 'return PAYLOAD'
-        return None
-    fnret_payload = [False]
-    txt = clone.canon(fn.body, fn, hook=hook, drop=drop, ren=ren)
-    # empty if-branches left after dropping payload
-    return txt
-
 
 def method_of(db, tname, spec, m):
     name = spec['insert'] if m == 'insert' else ('has_key' if (m == 'has' and tname in ('Map', 'TagMap')) else ('has_value' if m == 'has' else m))
@@ -164,41 +87,6 @@ def method_of(db, tname, spec, m):
     for f in db.functions:
         if f.rec and re.match(spec['rec'], f.rec) and f.name == name:
             out.append(f)
-    return out
-
-
-# Frozen reference skeletons (confirmed by reading the pinned tree; a consistent refactor of all four
-# tables changes these and is reported as exit 2 "reference skeleton differs", not as a violation).
-REF = {
- 'get_slot': ['uint64_t v0 = (hash(_) % this->capacity)', 'ITEM* v1 = (this->items + v0)', 'while ((OCC(v1) && MISMATCH))',
-              '(v1++)', 'if ((v1 == (this->items + this->capacity)))', '(v1 = this->items)', 'return v1'],
- 'del': ['if ((this->count == 0))', 'return false', 'ITEM* v0 = get_slot(_)', 'if (EMPTY(v0))', 'return false', '(this->count--)',
-         'while (true)', '(v0++)', 'if ((v0 == (this->items + this->capacity)))', '(v0 = this->items)', 'if (EMPTY(v0))', 'return true',
-         'ITEM* v1 = get_slot(_)', 'return true'],
- 'next': ['ITEM* v0 = (<PointerToBoolean:bool>p0 ? (ITEM*)(p0 + 1) : this->items)', 'ITEM* v1 = (this->items + this->capacity)', 'while ((v0 < v1))',
-          'if (OCC(v0))', 'return v0', '(v0++)', 'return NULL'],
- 'resize': ['TABLE v0', '(v0.count = 0)', '(v0.capacity = p0)', '(v0.items = (ITEM*)allocate_clear((p0 * sizeof(ITEM))))',
-            'ITEM* v1 = (this->items + this->capacity)', 'for (ITEM* v2 = this->items; (v2 != v1); (v2++))', 'if (OCC(v2))', 'v0.insert(_)',
-            'this->clear()', '(this->capacity = v0.capacity)', '(this->count = v0.count)', '(this->items = v0.items)'],
- 'has': ['if ((this->count == 0))', 'return false', 'ITEM* v0 = get_slot(_)', 'return OCC(v0)'],
- 'copy_from': ['(this->count = 0)', '(this->capacity = p0.capacity)', '(this->items = (ITEM*)allocate_clear((this->capacity * sizeof(ITEM))))',
-               'for (ITEM* v0 = p0.next(NULL); <PointerToBoolean:bool>v0; (v0 = p0.next(v0)))', 'this.insert(_)'],
- 'insert': ['if (((this->count * 10) >= (this->capacity * 5)))', 'this->resize(((this->capacity >= 8) ? (this->capacity * 2) : 8))',
-            'ITEM* v0 = get_slot(_)', 'if (EMPTY(v0))', '(this->count++)'],
-}
-
-
-def norm_lines(txt):
-    out = []
-    for l in txt.splitlines():
-        l = l.strip()
-        l = l.replace('<IntegralCast:uint64_t>', '').replace('<IntegralCast:unsigned long>', '')
-        l = re.sub(r'const (Map|Set)Item<[^>]*> \*', 'const ITEM* ', l)
-        l = re.sub(r'const (TagMapItem|Style|gdstk::Style|gdstk::TagMapItem) \*', 'const ITEM* ', l)
-        l = re.sub(r'<NoOp:const [^>]*>', '', l)
-        if l in (';', ''):
-            continue
-        out.append(l)
     return out
 
 
@@ -716,7 +604,7 @@ def run(ctx):
 
 
 MANIFEST = dict(
-   text='Decides structural necessary conditions of the container models on all paths: (1) check-then-use null contradictions in every property-list function (a pointer the function itself null-tests, re-assigned from a list tail and dereferenced untested); (2) the four open-addressing tables (Map<T>, Set<T>, TagMap, StyleMap; every member instantiated explicitly) have control skeletons equal to a frozen reference after abstracting the table-specific empty-slot predicate (probe wrap at items+capacity, load-factor test before get_slot, count++ only on an empty slot, del = empty + count-- + cluster re-insertion until the first empty slot, resize re-inserts every occupied item then clears, next bounded by items+capacity), payload obligations (old slot emptied, every item field written), count==0 guard before every look-up; (3) Array<T> bookkeeping; (4) property-list copies append at the tail and deep-copy, remove_property leaves the function right after the first removal unless all occurrences were requested, and set_gds_property / get_or_add_property either update an existing entry or link a new one, never both (CFG reachability). (5) heap sort (introsort fallback): child/parent index formulas evaluated for small indices, every comparison of a child index with the inclusive bound `end` is `<=`, the build phase passes count-1, after the maximum is swapped to items[end] the sift range excludes that slot, and the elements saved by insertion_sort, sift_down and partition are copies, not references into the array being rearranged. Does not decide equivalence with an abstract map/multimap over operation histories, nor that sort orders every input (value-dependent; only the index discipline of the heap part is decided).',
-   note='Trusted: clang 14 front end, gx, sa rules; the frozen reference skeletons in sa/props/C20.py were confirmed by reading the pinned tree (a consistent refactor of all tables is reported as differing from the reference, exit 1 naming the method, to be re-confirmed by a human); hash() not analysed.',
-   technique='clone-family comparison with predicate abstraction over typed ASTs + nullness dataflow (check-then-use contradiction) over the clang CFG',
+   text='Decides structural necessary conditions of the container models on all paths: (1) check-then-use null contradictions in every property-list function (a pointer the function itself null-tests, re-assigned from a list tail and dereferenced untested); (2) the four open-addressing tables (Map<T>, Set<T>, TagMap, StyleMap; every member instantiated explicitly) meet per-method event obligations decided on the CFG with affine loop summaries and linear forms through temporaries, pointer or index cursors alike, no stored text (probe starts at items + hash % capacity and wraps at items+capacity after every step, load-factor test before get_slot, count++ only on an empty slot, del = empty + count-- + cluster re-insertion until the first empty slot, resize re-inserts every occupied item then clears, next bounded by items+capacity), payload obligations (old slot emptied, every item field written), count==0 guard before every look-up; (3) Array<T> bookkeeping; (4) property-list copies append at the tail and deep-copy, remove_property leaves the function right after the first removal unless all occurrences were requested, and set_gds_property / get_or_add_property either update an existing entry or link a new one, never both (CFG reachability). (5) heap sort (introsort fallback): child/parent index formulas evaluated for small indices, every comparison of a child index with the inclusive bound `end` is `<=`, the build phase passes count-1, after the maximum is swapped to items[end] the sift range excludes that slot, and the elements saved by insertion_sort, sift_down and partition are copies, not references into the array being rearranged. Does not decide equivalence with an abstract map/multimap over operation histories, nor that sort orders every input (value-dependent; only the index discipline of the heap part is decided).',
+   note='Trusted: clang 14 front end, gx, sa rules; the table obligations (sa/hashtable.py) are semantic and form-independent; hash() not analysed.',
+   technique='per-method event obligations on the clang CFG with affine loop summaries (hash tables, heap sort) + nullness dataflow (check-then-use contradiction) + CFG reachability (update xor insert)',
    design='§4 C20')
